@@ -29,6 +29,7 @@ func init() {
 			{ID: "C09.R6", Min: 4, Doc: "handle follows segment number: on every path of a function that increments nextReadFileNum (writeFileNum), the cached readFile (writeFile) handle is nil when the function returns — otherwise the next read (write) continues on the old segment's handle while the cursor says new segment, position 0", Run: c09r6},
 			{ID: "C09.R7", Min: 3, Doc: "segment and metadata files are never truncated on open: the flag argument of every os.OpenFile in package nsqd is a constant (on every path) without O_TRUNC / O_APPEND / O_EXCL — the writer resumes inside an existing segment at the persisted position after a restart", Run: c09r7},
 			{ID: "C09.R8", Min: 2, Doc: "opening and closing never destroy data: no os.Remove / os.Rename / Truncate is reachable (over call and defer edges, not through the started ioLoop goroutine) from NewDiskQueue or from Close — a queue that is reopened finds every segment its metadata refers to", Run: c09r8},
+			{ID: "C09.R9", Min: 4, Doc: "read-ahead cursor follows the read cursor: wherever readPos / readFileNum is set from something other than the read-ahead cursor (metadata load, skip past a bad segment, reset), nextReadPos / nextReadFileNum is set to the same value before the function or its caller returns; and a store that steps the read-ahead cursor from its own value is dominated by one that bases it on the read cursor (readOne may run twice for one record)", Run: c09r9},
 			{ID: "C09.R5", Min: 3, Doc: "sibling agreement: normalised roll conditions of readOne/writeOne; length header type and byte order; record size 4+len", Run: c09r5},
 		},
 	})
@@ -779,4 +780,344 @@ func c09r8(c *Check) {
 		}
 		c.Judge(bad == "", FuncName(root)+" does not remove or rename queue files", pos, fmt.Sprintf("%d functions reachable synchronously, none removes or renames a segment", len(via)), "opening / closing the queue can delete or set aside segment files: "+bad+" — undelivered messages that were safely on disk are gone after a restart")
 	}
+}
+
+// c09r9: the read-ahead cursor (nextReadPos, nextReadFileNum) is always based on the read cursor.
+// (a) wherever readPos / readFileNum is (re)established from something other than the read-ahead
+// cursor (loaded from the metadata file, skipped past a bad segment, reset), nextReadPos /
+// nextReadFileNum is set to the same value before the function (or, for a helper, its caller) returns:
+// ioLoop takes `nextReadPos == readPos` for "nothing read ahead", so a stale read-ahead cursor makes
+// it hand out a message it never read and then jump back to that cursor.
+// (b) a store that steps the read-ahead cursor from its own previous value is dominated by a store
+// that based it on the read cursor: readOne may run more than once for the same record.
+func c09r9(c *Check) {
+	pkg := c.P.Pkg("nsqd").Types
+	pair := map[string]string{"readPos": "nextReadPos", "readFileNum": "nextReadFileNum"}
+	for _, n := range []string{"readPos", "readFileNum", "nextReadPos", "nextReadFileNum"} {
+		dqField(c, n) // anchors
+	}
+	fieldOfStore := func(in ssa.Instruction) (string, ssa.Value) {
+		st, ok := in.(*ssa.Store)
+		if !ok {
+			return "", nil
+		}
+		fa, ok := st.Addr.(*ssa.FieldAddr)
+		if !ok {
+			return "", nil
+		}
+		return dqFieldName(fa), st.Val
+	}
+	keyOf, dependsOnField := c09keyOf, c09dependsOnField
+	nA, nB := 0, 0
+	for _, fn := range c.P.Funcs {
+		if fnPkg(fn) != pkg {
+			continue
+		}
+		fn := fn
+		// (a) events: w:<field> (with key) and seed:<field> (with key)
+		type wr struct {
+			field, key string
+			at         ssa.Instruction
+		}
+		var writes []wr
+		allInstrs(fn, func(in ssa.Instruction) {
+			if f, v := fieldOfStore(in); pair[f] != "" {
+				if !dependsOnField(v, pair[f]) {
+					writes = append(writes, wr{f, keyOf(v, 0), in})
+				}
+				return
+			}
+			// the address of the field handed to a callee (Fscanf(&d.readPos)): written by that callee
+			if fa, ok := in.(*ssa.FieldAddr); ok && pair[dqFieldName(fa)] != "" {
+				for _, r := range *fa.Referrers() {
+					switch r.(type) {
+					case *ssa.Store:
+						if r.(*ssa.Store).Val == ssa.Value(fa) {
+							writes = append(writes, wr{dqFieldName(fa), "*", in})
+						}
+					case *ssa.MakeInterface, *ssa.Call:
+						writes = append(writes, wr{dqFieldName(fa), "*", in})
+					}
+				}
+			}
+		})
+		if len(writes) > 0 {
+			byField := map[string][]wr{}
+			for _, w := range writes {
+				byField[w.field] = append(byField[w.field], w)
+			}
+			for f, ws := range byField {
+				nA++
+				key := fmt.Sprintf("nsqd.%s re-seeds %s after setting %s", fn.Name(), pair[f], f)
+				bad := seedAfter(c, fn, f, pair[f], keyOf, dependsOnField, 0)
+				c.Judge(bad == "", key, c.At(ws[0].at), "on every path "+pair[f]+" is set to the same value afterwards (here or in every caller)", bad)
+			}
+		}
+		// (b) self-stepping stores
+		allInstrs(fn, func(in ssa.Instruction) {
+			f, v := fieldOfStore(in)
+			if f != "nextReadPos" && f != "nextReadFileNum" {
+				return
+			}
+			if !dependsOnField(v, f) {
+				return
+			}
+			nB++
+			dom := false
+			allInstrs(fn, func(in2 ssa.Instruction) {
+				f2, v2 := fieldOfStore(in2)
+				if f2 == f && in2 != in && !dependsOnField(v2, "nextReadPos") && !dependsOnField(v2, "nextReadFileNum") && instrDominates(in2, in) {
+					dom = true
+				}
+			})
+			c.Judge(dom, fmt.Sprintf("nsqd.%s steps %s from a value based on the read cursor", fn.Name(), f), c.At(in), "dominated by a store that bases "+f+" on the read cursor",
+				f+" is advanced from its own previous value without first being based on the read cursor: ioLoop reads the same record again whenever it wakes up while `nextReadPos == readPos` (a record that fills a whole segment), and every re-read moves the cursor further, so whole segments are skipped")
+		})
+	}
+	if nA < 3 {
+		anchorFail("fewer than three sites that (re)establish the read cursor found (%d)", nA)
+	}
+	if nB < 1 {
+		anchorFail("no self-stepping store of the read-ahead cursor found")
+	}
+}
+
+// seedAfter: on every path of fn after the last non-ack write of field f, next is stored the same
+// value (or a load of f); otherwise every caller must do so after calling fn. Returns "" when it holds.
+func seedAfter(c *Check, fn *ssa.Function, f, next string, keyOf func(ssa.Value, int) string, dependsOnField func(ssa.Value, string) bool, depth int) string {
+	pkg := fnPkg(fn)
+	writesF := func(g *ssa.Function) bool {
+		found := false
+		allInstrs(g, func(in ssa.Instruction) {
+			if st, ok := in.(*ssa.Store); ok {
+				if fa, ok := st.Addr.(*ssa.FieldAddr); ok && (dqFieldName(fa) == f || dqFieldName(fa) == next) {
+					found = true
+				}
+			}
+		})
+		return found
+	}
+	cfg := &PathCfg{
+		Inline: func(g *ssa.Function) bool { return fnPkg(g) == pkg && g != fn && writesF(g) },
+		Classify: func(in ssa.Instruction) []string {
+			if st, ok := in.(*ssa.Store); ok {
+				if fa, ok := st.Addr.(*ssa.FieldAddr); ok {
+					switch dqFieldName(fa) {
+					case f:
+						if dependsOnField(st.Val, next) {
+							return []string{"ack"}
+						}
+						return []string{"w=" + keyOf(st.Val, 0)}
+					case next:
+						return []string{"seed=" + keyOf(st.Val, 0)}
+					}
+				}
+			}
+			if fa, ok := in.(*ssa.FieldAddr); ok && dqFieldName(fa) == f {
+				for _, r := range *fa.Referrers() {
+					switch x := r.(type) {
+					case *ssa.Store:
+						if x.Val == ssa.Value(fa) {
+							return []string{"w=*"}
+						}
+					case *ssa.MakeInterface, *ssa.Call:
+						return []string{"w=*"}
+					}
+				}
+			}
+			return nil
+		},
+	}
+	cfg.Branch = errBranch
+	paths, trunc := EnumPaths(fn, nil, cfg)
+	if trunc {
+		return "path enumeration incomplete"
+	}
+	missing := ""
+	for i := range paths {
+		pa := &paths[i]
+		if pa.End != "return" {
+			continue
+		}
+		lastW, wKey := -1, ""
+		for k, e := range pa.Events {
+			if strings.HasPrefix(e.Class, "w=") {
+				lastW, wKey = k, strings.TrimPrefix(e.Class, "w=")
+			}
+		}
+		if lastW < 0 {
+			continue
+		}
+		// a failed load leaves the queue unusable anyway: only paths returning no error count
+		if returnsError(pa) {
+			continue
+		}
+		ok := false
+		for _, e := range pa.Events[lastW+1:] {
+			if strings.HasPrefix(e.Class, "seed=") {
+				sk := strings.TrimPrefix(e.Class, "seed=")
+				if sk == "."+f || (wKey != "*" && sk == wKey) {
+					ok = true
+				}
+			}
+		}
+		if !ok {
+			missing = pa.String()
+			break
+		}
+	}
+	if missing == "" {
+		return ""
+	}
+	// a helper: every caller re-seeds after the call
+	if depth < 2 {
+		ins := c.P.CG().In[fn]
+		all := len(ins) > 0
+		for _, e := range ins {
+			if e.Kind != EdgeCall || e.Dyn {
+				all = false
+				break
+			}
+			caller := e.Caller
+			ccfg := &PathCfg{
+				Classify: func(in ssa.Instruction) []string {
+					if in == e.Site {
+						return []string{"w=*"}
+					}
+					if st, ok := in.(*ssa.Store); ok {
+						if fa, ok := st.Addr.(*ssa.FieldAddr); ok && dqFieldName(fa) == next {
+							return []string{"seed=" + keyOf(st.Val, 0)}
+						}
+					}
+					return nil
+				},
+			}
+			ccfg.Branch = errBranch
+			cp, ctr := EnumPaths(caller, nil, ccfg)
+			if ctr {
+				all = false
+				break
+			}
+			for i := range cp {
+				pa := &cp[i]
+				if pa.End != "return" || !pa.Has("w=*") {
+					continue
+				}
+				if returnsError(pa) {
+					continue
+				}
+				wi := pa.Index("w=*")
+				ok := false
+				for _, ev := range pa.Events[wi+1:] {
+					if ev.Class == "seed=."+f {
+						ok = true
+					}
+				}
+				if !ok {
+					all = false
+				}
+			}
+		}
+		if all {
+			return ""
+		}
+	}
+	return fmt.Sprintf("%s is set on path %s and %s is not set to the same value before the function returns: ioLoop compares the two to decide whether a message was already read ahead, so after this the queue hands out a message it never read and then continues from the stale read-ahead cursor (messages lost or delivered twice)", f, missing, next)
+}
+
+// errBranch marks the edges on which an error value is known to be non-nil.
+func errBranch(ifi *ssa.If, cond ssa.Value, taken bool) []string {
+	if e, errEdge, ok := errTest(cond); ok && taken == errEdge {
+		return []string{"nonnil:" + e.Name()}
+	}
+	return nil
+}
+
+// returnsError: the path returns a last result that is a non-nil constant or was tested non-nil on the path.
+func returnsError(pa *Path) bool {
+	if pa.End != "return" || len(pa.Ret) == 0 {
+		return false
+	}
+	last := len(pa.Ret) - 1
+	if pa.Ret[last] != nil {
+		return !isNilConst(pa.Ret[last])
+	}
+	if last < len(pa.RetV) && pa.RetV[last] != nil {
+		if isErrorCtor(pa.RetV[last]) {
+			return true
+		}
+		if pa.Has("nonnil:" + pa.RetV[last].Name()) {
+			return true
+		}
+	}
+	// `if err != nil { return err }` with the result spilled to a variable (deferred calls): the
+	// last thing the path learned is that an error is non-nil
+	if n := len(pa.Events); n > 0 && strings.HasPrefix(pa.Events[n-1].Class, "nonnil:") {
+		return true
+	}
+	return false
+}
+
+// dqFieldName: the name of the DiskQueue field fa addresses ("" for fields of other structs).
+func dqFieldName(fa *ssa.FieldAddr) string {
+	pt, ok := fa.X.Type().Underlying().(*types.Pointer)
+	if !ok {
+		return ""
+	}
+	nt, ok := pt.Elem().(*types.Named)
+	if !ok || nt.Obj().Name() != "DiskQueue" {
+		return ""
+	}
+	return fieldOfAddr(fa).Name()
+}
+
+// expression key of a stored value: field loads by field name, constants by value, sums structurally
+func c09keyOf(v ssa.Value, depth int) string {
+	keyOf := c09keyOf
+	if depth > 6 {
+		return "?"
+	}
+	switch x := v.(type) {
+	case *ssa.Const:
+		return x.Value.String()
+	case *ssa.UnOp:
+		if fa, ok := x.X.(*ssa.FieldAddr); ok && x.Op == token.MUL {
+			return "." + dqFieldName(fa)
+		}
+	case *ssa.BinOp:
+		return "(" + keyOf(x.X, depth+1) + x.Op.String() + keyOf(x.Y, depth+1) + ")"
+	case *ssa.Convert:
+		return keyOf(x.X, depth+1)
+	case *ssa.Field:
+		if st, ok := x.X.Type().Underlying().(*types.Struct); ok {
+			return keyOf(x.X, depth+1) + "." + st.Field(x.Field).Name()
+		}
+	}
+	return "v" + v.Name()
+}
+func c09dependsOnField(v ssa.Value, name string) bool {
+	found := false
+	var walk func(v ssa.Value, d int)
+	walk = func(v ssa.Value, d int) {
+		if d > 8 || found {
+			return
+		}
+		switch x := v.(type) {
+		case *ssa.UnOp:
+			if fa, ok := x.X.(*ssa.FieldAddr); ok && x.Op == token.MUL && dqFieldName(fa) == name {
+				found = true
+			}
+		case *ssa.BinOp:
+			walk(x.X, d+1)
+			walk(x.Y, d+1)
+		case *ssa.Convert:
+			walk(x.X, d+1)
+		case *ssa.Phi:
+			for _, e := range x.Edges {
+				walk(e, d+1)
+			}
+		}
+	}
+	walk(v, 0)
+	return found
 }
